@@ -22,6 +22,7 @@ def run(rep):
     b3(rep, w)
     b8(rep, w)
     b9(rep, w)
+    b10(rep, w)
     import c04_narrow
     c04_narrow.b4(rep, w)
     b5(rep, w)
@@ -734,6 +735,58 @@ def b9(rep, w):
             r.check(used, '%s -> %s #%d' % (f.path.replace(P, '').replace(COMPILER, 'Compiler::'), nm.replace(COMPILER, ''), k),
                     'the %s returned by Compiler::%s is dropped: when it refuses (limit reached / invalid state) compilation carries on as if it had succeeded and '
                     'the emitted code no longer matches the recorded variables' % ('bool' if rt == 'bool' else 'Result', nm.replace(COMPILER, '')), f.loc(t.get('sp')))
+
+
+def b10(rep, w):
+    """handler entry height: unwind_stack enters a handler with the value stack cut back to the height recorded by PushExcHandler
+    plus one slot, the exception object. The code at the handler address must have been compiled for that height: a catch block
+    declares its variable for the extra slot; a finally block that can be the handler target itself (try/finally without catch) is
+    also entered by plain fall-through, one slot lower -- the same instructions then run at two heights and every local declared in
+    the block is off by one on the exception path."""
+    r = rep.rule('B10', 'the exception object pushed at handler entry is bound to a declared variable on every handler entry (stack height agrees with what the '
+                 'compiler assumed for the code at the handler address)', floor=2)
+    u = w.require_fn('yarel::vm::Vm::unwind_stack', 'C04')
+    org = origins(u)
+    trunc = [bi for bi, t in u.calls() if callee_name(t) == 'yarel::stack::Stack::<T, N>::truncate']
+    pushes = [bi for bi, t in u.calls() if callee_name(t) == 'yarel::vm::Vm::push' and any(bi in u.reachable_blocks(tb) for tb in trunc)]
+    dom = u.dominators()
+    # is the push conditional on the kind of handler (catch vs finally-only)?
+    kind_tests = [bi for bi, t in u.calls() if callee_name(t) == 'yarel::object::ExcHandler::has_catch_block']
+    conditional = any(any(k in dom.get(p_, ()) for k in kind_tests) and not all(p_ in u.reachable_blocks(s_) for s_ in u.succs()[_switch_after(u, k)]) for p_ in pushes for k in kind_tests
+                      if _switch_after(u, k) is not None)
+    r.check(len(trunc) == 1 and len(pushes) == 1, 'unwind_stack: truncate to the recorded height, push the exception object', 'unwind_stack no longer enters handlers at recorded height + 1', u.loc())
+    ts = w.require_fn(P + 'try_statement', 'C04')
+    decl = {bi for bi, t in ts.calls() if callee_name(t) == P + 'declare_variable'}
+    blocks = sorted(bi for bi, t in ts.calls() if callee_name(t) == P + 'block')
+    if len(blocks) != 3:
+        raise Broken('C04', 'anchor', 'try_statement: expected three block() calls (try, catch, finally), found %d' % len(blocks))
+    fin = blocks[-1]
+    # can the finally block be reached on an error-free path that declares no variable for the handler slot?
+    err = emit.error_blocks(ts)
+    seen, stack, bare = set(), [0], False
+    while stack:
+        b = stack.pop()
+        if b in seen or b in decl or b in err:
+            continue
+        seen.add(b)
+        if b == fin:
+            bare = True
+            break
+        stack.extend(ts.succs()[b])
+    r.check(conditional or not bare, 'try_statement / finally-only handler entry',
+            'a try statement without catch makes its finally block the handler target, but no variable is declared for the exception object unwind_stack pushes there: '
+            'the block runs one slot higher on the exception path than on fall-through, so `finally { var x = 1; print(x); }` prints the exception', ts.loc())
+
+
+def _switch_after(f, b, limit=6):
+    for _ in range(limit):
+        t = f.blocks[b]['t']
+        if t['t'] == 'switch':
+            return b
+        b = t.get('to')
+        if b is None:
+            return None
+    return None
 
 
 def b7(rep, w):
